@@ -287,6 +287,35 @@ def load_findings(prop):
 
 
 # ------------------------------------------------------------------ replay
+_replay_lib = {}
+
+
+def build_replay_lib(ctx):
+    """compile /repo's current dispenso/*.cpp into a static archive in the scratch dir (once per run)"""
+    if 'lib' in _replay_lib:
+        return _replay_lib['lib']
+    work = os.path.join(ctx.scratch, 'replaylib')
+    os.makedirs(work, exist_ok=True)
+    srcs = []
+    for d in ('dispenso', 'dispenso/detail'):
+        dd = os.path.join(REPO, d)
+        srcs += [os.path.join(dd, f) for f in sorted(os.listdir(dd)) if f.endswith('.cpp')]
+    def cc(src):
+        obj = os.path.join(work, re.sub(r'\W', '_', os.path.relpath(src, REPO)) + '.o')
+        rc, out, err, _ = sh(['g++', '-std=c++17', '-O1', '-g', '-w', '-c', '-I', REPO, '-I', os.path.join(REPO, 'dispenso/third-party'), src, '-o', obj], 600)
+        return obj if rc == 0 else None
+    with ThreadPoolExecutor(max_workers=12) as ex:
+        objs = list(ex.map(cc, srcs))
+    lib = None
+    if all(objs):
+        lib = os.path.join(work, 'libdispenso_replay.a')
+        rc, out, err, _ = sh(['ar', 'rcs', lib] + objs, 120)
+        if rc != 0:
+            lib = None
+    _replay_lib['lib'] = lib
+    return lib
+
+
 def do_replay(prop, u, o, ctx, outdir):
     """returns (path, reproduced: bool|None, text)"""
     os.makedirs(outdir, exist_ok=True)
@@ -307,11 +336,9 @@ def do_replay(prop, u, o, ctx, outdir):
             os.makedirs(work, exist_ok=True)
             exe = os.path.join(work, 'replay.out')
             srcs = [os.path.join(VERIF, u.replay['prog'])]
+            lib = build_replay_lib(ctx)
             cmd = ['g++', '-std=c++17', '-O1', '-g', '-w', '-I', REPO, '-I', os.path.join(REPO, 'dispenso/third-party')] + \
-                  u.replay.get('cxxflags', []) + srcs + u.replay.get('link', []) + ['-o', exe, '-lpthread']
-            if u.replay.get('with_lib'):
-                cmd[-2:-2] = [os.path.join(REPO, 'dispenso', f) for f in sorted(os.listdir(os.path.join(REPO, 'dispenso'))) if f.endswith('.cpp')] + \
-                             [os.path.join(REPO, 'dispenso/detail', f) for f in sorted(os.listdir(os.path.join(REPO, 'dispenso/detail'))) if f.endswith('.cpp')]
+                  u.replay.get('cxxflags', []) + srcs + ([lib] if lib else []) + u.replay.get('link', []) + ['-o', exe, '-lpthread']
             rc, out, err, _ = sh(cmd, 600)
             if rc != 0:
                 text = 'replay build failed: ' + err[-800:]
